@@ -388,14 +388,20 @@ def value_of(v):
     return np.asarray(v)
 
 
+class Split(object):
+    """stands for the input when every prelude register is an argument of its own (several independents)"""
+    def __init__(self, regs):
+        self.regs = regs
+
+
 def run(prog, x, guard=False, log=None, before=None):
-    """Execute the instruction list on x (ndarray, UTPM or Function).  Returns (output, regs).
-    guard=True (ndarray runs): raise OutOfDomain when a template's domain guard fails."""
+    """Execute the instruction list on x (ndarray, UTPM or Function; or a Split holding the prelude registers).
+    Returns (output, regs).  guard=True (ndarray runs): raise OutOfDomain when a template's domain guard fails."""
     regs = {}
 
     def get(ref):
         if ref not in regs:
-            regs[ref] = PRELUDE[ref](x)
+            regs[ref] = x.regs[ref] if isinstance(x, Split) else PRELUDE[ref](x)
         return regs[ref]
 
     out = None
